@@ -289,6 +289,13 @@ def gen_spec(rng, size=None):
         "wl_skip_head": rng.choice([0, 0, 0, 1, 2]),
         "wl_skip_tail": rng.choice([0, 0, 0, 1, 2]),
     }
+    # rows need not be in time order (two logger downloads concatenated newest first, back-filled
+    # rows appended at the end, ...): load accepts any row order
+    if rng.random() < 0.25:
+        spec["row_order"] = {"water_level": rng.choice(["reversed", "blocks", "shuffled"]),
+                             "precipitation": rng.choice(["sorted", "sorted", "shuffled"]),
+                             "evapotranspiration": rng.choice(["sorted", "sorted", "reversed"]),
+                             "seed": rng.randrange(1 << 30)}
     # the water-level record may also start before / end after the rain record
     if rng.random() < 0.15:
         spec["wl_skip_head"] = -rng.randint(1, 3 * k)
@@ -342,7 +349,28 @@ def render(spec):
             value = _r3(zeta[i] + (zeta[i + 1] - zeta[i]) * j / float(k))
         when = (t0 + datetime.timedelta(seconds=f * (dt // k))).strftime(fmt)
         z_lines.append("%s,%r" % (when, value))
+    order = spec.get("row_order")
+    if order:
+        import random as _random  # pylint: disable=import-outside-toplevel
+        shuffler = _random.Random(order.get("seed", 0))
+        p_lines = _reorder(p_lines, order.get("precipitation", "sorted"), shuffler)
+        e_lines = _reorder(e_lines, order.get("evapotranspiration", "sorted"), shuffler)
+        z_lines = _reorder(z_lines, order.get("water_level", "sorted"), shuffler)
     return ("\n".join(p_lines) + "\n", "\n".join(e_lines) + "\n", "\n".join(z_lines) + "\n")
+
+
+def _reorder(lines, how, shuffler):
+    """Header first, data rows in another order (same rows)."""
+    header, rows = lines[0], lines[1:]
+    if how == "reversed":
+        rows = rows[::-1]
+    elif how == "shuffled":
+        rows = list(rows)
+        shuffler.shuffle(rows)
+    elif how == "blocks" and len(rows) > 3:
+        cut = shuffler.randrange(1, len(rows) - 1)
+        rows = rows[cut:] + rows[:cut]          # second download listed before the first
+    return [header] + rows
 
 
 def kept_samples(spec):
